@@ -850,6 +850,36 @@ func errorOriginKey(v ssa.Value, depth int) string {
 			}
 		}
 		if sc := x.Call.StaticCallee(); sc != nil {
+			// a repo helper that produces one kind of error is named by that error, so that inlining the helper (or
+			// extracting it) does not rename the exit: `checkCancelled(ctx)` ≙ `"request cancelled: %w"`
+			if theCtx != nil && theCtx.inRepo(sc) && sc.Blocks != nil && depth > 1 {
+				kinds := map[string]bool{}
+				for _, ret := range returnsOf(sc) {
+					rs := retResults(ret)
+					if len(rs) == 0 {
+						continue
+					}
+					last := rs[len(rs)-1]
+					if last.Type().String() != "error" || isNilConst(last) {
+						continue
+					}
+					if c2, ok := last.(*ssa.Call); ok {
+						ci2 := describeCall(&c2.Call)
+						if (ci2.Pkg == "fmt" && ci2.Name == "Errorf") || (ci2.Pkg == "errors" && ci2.Name == "New") {
+							if s, ok := constString(c2.Call.Args[0]); ok {
+								kinds["\""+s+"\""] = true
+								continue
+							}
+						}
+					}
+					kinds["?"] = true
+				}
+				if len(kinds) == 1 && !kinds["?"] {
+					for k := range kinds {
+						return k
+					}
+				}
+			}
 			return cshort(sc)
 		}
 		return ci.Name
